@@ -230,4 +230,15 @@ def stepFinb (s : TState) : MStep → Bool
   | .buffset i e ms => ms.isEmpty || namedb u s.cfg i e
   | _ => true
 
+/-- Executable side condition of an `RC` line (the driver replaces the configuration, registers and table stay):
+whatever the registers hold for the named pairs of the *old* configuration — a loaded flag, a running effect,
+recorded targets, warfare-buff payload — is still named in the new configuration `cfg'`.  On `DynFin` registers
+(which hold nothing else) this is `DynFin u cfg' s.dyn`, the `reconfig` clause of `StepFin`
+(`rcFinb_sound` / `rcFinb_complete`, EosProofs/Lemmas/MicroExec.lean). -/
+def rcFinb (s : TState) (cfg' : Config) : Bool :=
+  s.cfg.items.all fun x =>
+    (!s.dyn.loaded x.id || cfg'.items.any fun y => y.id == x.id) &&
+    (effsOf u x).all fun e =>
+      (!s.dyn.on x.id e && (s.dyn.tgts x.id e).isEmpty && (s.dyn.bspecs x.id e).isEmpty) || namedb u cfg' x.id e
+
 end Eos.Micro
